@@ -767,18 +767,18 @@ func (s *Sim) release(t *Task) {
 			t.ans[i] = i
 		}
 		for i := 0; i < n-1; i++ {
-			j := i + s.Tape.Choose(n-i, "sel")
+			j := i + s.Tape.ChooseS(n-i, "sel")
 			t.ans[i], t.ans[j] = t.ans[j], t.ans[i]
 		}
 	case KNow:
 		tick := int64(1)
 		if s.MaxTick > 1 {
-			tick += int64(s.Tape.Choose(int(s.MaxTick), "tick"))
+			tick += int64(s.Tape.ChooseS(int(s.MaxTick), "tick"))
 		}
 		time.Sleep(time.Duration(tick))
 		waitQuiescent()
 	case KChoice:
-		t.ansI = s.Tape.Choose(t.n, "choice:"+t.site)
+		t.ansI = s.Tape.ChooseS(t.n, "choice:"+t.site)
 	case KFS:
 		a := FSAnswer{Short: -1}
 		if s.FSFault != nil {
